@@ -481,6 +481,33 @@ impl Pase {
     }
 }
 
+/// Verification hooks (only with `--cfg rs_matter_verif`): the in-progress PASE
+/// establishment marker.
+#[cfg(rs_matter_verif)]
+impl Pase {
+    /// `(session id, exchange index, expired)` of the in-progress marker, if any.
+    pub fn verif_session_marker(&self) -> Option<(u32, usize, bool)> {
+        self.session_timeout.as_ref().map(|sd| {
+            (
+                sd.exch_id.session_id(),
+                sd.exch_id.exchange_index(),
+                sd.is_sess_expired(),
+            )
+        })
+    }
+
+    /// Move the expiry of the in-progress marker `secs` seconds into the past
+    /// (as if that much time had gone by).
+    pub fn verif_age_session_marker(&mut self, secs: u64) {
+        if let Some(sd) = self.session_timeout.as_mut() {
+            sd.session_est_expiry = sd
+                .session_est_expiry
+                .checked_sub(Duration::from_secs(secs))
+                .unwrap_or(Instant::from_ticks(0));
+        }
+    }
+}
+
 impl Default for Pase {
     fn default() -> Self {
         Self::new()
